@@ -45,6 +45,7 @@ type c19sCase struct {
 	Signal  string `json:"signal"`
 	Items   int    `json:"items"`
 	Down    string `json:"downstream"` // ok | error
+	Takes   bool   `json:"downstream_takes_the_data,omitempty"` // the next consumer declares MutatesData and moves the data away
 	Scraper string `json:"scraper"`    // ok | partial | fail
 }
 
@@ -83,7 +84,12 @@ func c19sRun(c c19sCase) (string, string) {
 					return ld, serr
 				})
 			}, component.StabilityLevelStable))
-		next, _ := consumer.NewLogs(func(context.Context, plog.Logs) error { return downErr })
+		next, _ := consumer.NewLogs(func(_ context.Context, ld plog.Logs) error {
+			if c.Takes {
+				ld.ResourceLogs().MoveAndAppendTo(plog.NewLogs().ResourceLogs())
+			}
+			return downErr
+		}, consumer.WithCapabilities(consumer.Capabilities{MutatesData: c.Takes}))
 		r, err := NewLogsController(&ControllerConfig{CollectionInterval: 1e9}, set, next, AddFactoryWithConfig(sf, &struct{}{}))
 		if err != nil {
 			return "construct", err.Error()
@@ -104,7 +110,12 @@ func c19sRun(c c19sCase) (string, string) {
 					return md, serr
 				})
 			}, component.StabilityLevelStable))
-		next, _ := consumer.NewMetrics(func(context.Context, pmetric.Metrics) error { return downErr })
+		next, _ := consumer.NewMetrics(func(_ context.Context, md pmetric.Metrics) error {
+			if c.Takes {
+				md.ResourceMetrics().MoveAndAppendTo(pmetric.NewMetrics().ResourceMetrics())
+			}
+			return downErr
+		}, consumer.WithCapabilities(consumer.Capabilities{MutatesData: c.Takes}))
 		r, err := NewMetricsController(&ControllerConfig{CollectionInterval: 1e9}, set, next, AddFactoryWithConfig(sf, &struct{}{}))
 		if err != nil {
 			return "construct", err.Error()
@@ -157,7 +168,8 @@ func TestVerif(t *testing.T) {
 		for _, n := range []int{0, 1, 3} {
 			for _, d := range []string{"ok", "error"} {
 				for _, sc := range []string{"ok", "partial", "fail"} {
-					c := c19sCase{s, n, d, sc}
+				for _, takes := range []bool{false, true} {
+					c := c19sCase{Signal: s, Items: n, Down: d, Takes: takes, Scraper: sc}
 					ctx.R.Evals++
 					ctx.R.Trans++
 					ctx.Nontrivial(vr.Hash(fmt.Sprint(c)))
@@ -168,6 +180,7 @@ func TestVerif(t *testing.T) {
 						ctx.R.Traces++
 					}
 					ctx.Sample(c)
+				}
 				}
 			}
 		}
